@@ -20,7 +20,7 @@ def main():
             out.append(l)
             i += 1
             # copy directives
-            while src[i].strip().startswith(('//@sub', '//@auto', '//@name', '//@keep-vis')):
+            while src[i].strip().startswith(('//@sub', '//@auto', '//@name', '//@keep-vis', '//@rule')):
                 out.append(src[i]); i += 1
             # skip the old body
             while src[i].strip() != '//@end':
